@@ -22,14 +22,22 @@ SPEC = dict(
              "(kernel evaluation) and proves, generically in any table satisfying the checked well-formedness conditions and for every "
              "well-typed value of every constructor with supported field types (all flag combinations, nesting, polymorphic objects, vectors, "
              "byte/text strings of every length): the modelled serialiser emits exactly the TL encoding, and the modelled parser returns the "
-             "same value and consumes exactly the serialised bytes, with auto-deserialisation off and - when no bytes/string content starts "
-             "with a registered id - on; the framing lemma holds for every string length; BlockIdExt byte/dict conversions are lossless and "
-             "equal ids hash equally. The hand-written model is tied to the code by differential testing on every covered constructor.",
+             "same value and consumes exactly the serialised bytes with auto-deserialisation off; with it on the parser returns "
+             "normalize(v) - v with the content of every bytes/string field (untouchables of boxed objects excepted) run through the "
+             "library's re-parse loop - consumes exactly the serialised bytes and raises exactly when normalize(v) is undefined (a string "
+             "whose bytes start with a registered id); normalize(v) = v when no content starts with a registered id (decidable side "
+             "condition); a content that is one / several serialised well-typed objects becomes that object's own normal form / the "
+             "list of them. For tables without a cycle of bare references (checked for the bundled table: depth 5) recursion depth "
+             "(len/4+1)(R+2) suffices for any input, so the auto round trip holds with that explicit budget. The framing lemma holds "
+             "for every string length; BlockIdExt byte/dict conversions are lossless and equal ids hash equally. The hand-written "
+             "model is tied to the code by differential testing on every covered constructor, including contents built from nested "
+             "objects, lists, foreign tails and strings with a registered prefix.",
         level_note='Trusted: Lean kernel (propext, Classical.choice, Quot.sound), Spec/Tl.lean as the TL format, the table translator '
                    '(harness/translate/tl_table.py), the hand model Model/Tl.lean (tied by sampled correspondence, not by proof), Python '
                    'str.encode/decode = strict UTF-8, bytes.fromhex/hex inverse, tuple hash. Fuel = recursion depth: theorems hold for every '
-                   'sufficiently large depth budget. The general auto-deserialise statement (result = normalize v) is not proved, only the '
-                   'identity case under the stated side condition. Vector elements must occupy >= 1 byte (side condition in the spec).',
+                   'sufficiently large depth budget; normalize carries the same budget (its re-parses are the model parser on the content) and '
+                   'is shown to be budget-independent from tlFuel on for tables without bare cycles; Python\'s own recursion limit is not '
+                   'modelled. Vector elements must occupy >= 1 byte (side condition in the spec).',
         technique='Lean 4 proof (hand model generic in a schema table regenerated from source) + differential correspondence with the library',
     ),
     translators=[('tl schemas->Generated/TlTable.lean', TT.regenerate)],
@@ -37,8 +45,10 @@ SPEC = dict(
     rule='for every covered constructor >= 3 type-directed random canonical values (boundary-biased ints, strings/bytes at lengths '
          '{0..4,252..257,65535 (thorough 2^24-1)} plus a sweep of every length 0..300, nested/polymorphic objects to depth 3, vectors of '
          '0/1/many, all flag combinations for <= 6 conditional fields, sampled above); each serialised by the library, compared with an '
-         'independent TL encoder, parsed back in both auto-deserialise modes, and run through the Lean model; plus nested-object-in-bytes '
-         'cases, damaged inputs (model vs library only) and BlockId/BlockIdExt helpers; distinct = distinct (constructor, value); '
+         'independent TL encoder, parsed back in both auto-deserialise modes, and run through the Lean model (serialize, deserialize in '
+         'both modes, normalize); plus nested-object-in-bytes cases, auto-shape cases (bytes contents built from 1..4 serialised objects, '
+         'foreign tails, empty, nesting to depth 3, with an independently computed expected result; strings starting with a registered '
+         'id must raise), damaged inputs (model vs library only) and BlockId/BlockIdExt helpers; distinct = distinct (constructor, value); '
          'non-trivial = the constructor has at least one field',
     trusted_base=['harness/translate/tl_table.py (table generator, replays the type tests of serialize_field/deserialize)',
                   'Spec/Tl.lean is the TL binary format', 'Model/Tl.lean mirrors generator.py/block.py by hand',
@@ -193,7 +203,8 @@ def check_value(ctx, W, B, c, v, tag, modes=(False, True), expect_auto=None, mod
             ctx.fail(f'consumed-{mode}:{c["name"]}', 'deserialize did not consume exactly the serialised bytes', inp, n, len(ser))
             continue
         if not V.same(val, want):
-            ctx.fail(f'roundtrip-{mode}:{c["name"]}', 'deserialize(serialize(v)) differs from v', inp, val, want)
+            ctx.fail(f'roundtrip-{mode}:{c["name"]}', 'deserialize(serialize(v)) differs from ' +
+                     ('v' if want is v else 'normalize(v) (contents built from known objects re-parsed as the loop should)'), inp, val, want)
             continue
         if model and not big:
             def cb_de(out, line, val=val, n=n, inp=inp, mode=mode):
